@@ -297,3 +297,30 @@ fn q_sub_split_hasher() {
     assert!(r.is_some() == (k < 2));
     coherent(&c);
 }
+
+// ---- the state builder itself: states built by `link_new` satisfy the representation invariant -------------
+#[kani::proof]
+#[kani::unwind(6)]
+fn q_sub_builder() {
+    let n: u8 = kani::any();
+    kani::assume(n <= 3);
+    let c = prebuilt(n, 4);
+    coherent(&c);
+    exact(&c);
+    let o = order(&c);
+    assert!(o.1 == n as usize);
+    let mut i = 0; while i < o.1 { assert!(o.0[i] == i as u8); i += 1; }
+}
+// ---- insert_untracked (used by Clone::clone): stores and links as MRU; the caller accounts the size ----------
+#[kani::proof]
+#[kani::unwind(6)]
+fn q_sub_insert_untracked() {
+    let mut c = prebuilt(2, 4);
+    let u = UnhingedEntry::new(9u8, SV(1));
+    c.current_size += u.size();
+    let e = Entry::new(u, c.seal, c.seal.get().next);
+    c.insert_untracked(e);
+    coherent(&c);
+    let o = order(&c);
+    assert!(o.1 == 3 && o.0[0] == 0 && o.0[1] == 1 && o.0[2] == 9);
+}
